@@ -216,6 +216,10 @@ def build(name, src, flags=None, san=True, opt="-O1", ndebug=True, libs=None, cx
     key = h.hexdigest()[:20]
     outdir = os.path.join(BUILD, "bin")
     os.makedirs(outdir, exist_ok=True)
+    # binaries built against another tree (VERIF_REPO=<scratch worktree>) get their own name, so that checks running
+    # concurrently against different trees do not evict each other's binaries
+    if os.path.abspath(REPO) != "/repo":
+        name = "%s@%s" % (name, hashlib.sha256(os.path.abspath(REPO).encode()).hexdigest()[:8])
     out = os.path.join(outdir, "%s-%s" % (name, key))
     if os.path.exists(out):
         return out
